@@ -302,7 +302,7 @@ def context_of(lines, lno):
     i = lno - 1
     while i >= 0:
         e = json.loads(lines[i])
-        if e.get("k") in ("reset", "pair", "circ", "begin"):
+        if e.get("k") in ("reset", "pair", "circ", "begin", "pairc", "pairn", "pairg", "pairp", "circf"):
             return e, ev
         i -= 1
     return None, ev
